@@ -10,8 +10,8 @@ CLAIMED = {
          "the universal statement is a theorem about the model of the emitters and of header.rs; the model is tied to the code on every run", "DESIGN.md 7 C02"),
  "C03": ("Coq: C03_frame for every emitted module, type and input; families are two renderings of one IR body (K2) and both compiled families are run on every input (K3)",
          "frame theorem holds for all inputs, valid or not; independence of suffix/offset is checked on the real decoders", "DESIGN.md 7 C03"),
- "C04": ("Coq: C04_no_panic -- for every specification satisfying the decidable sup4_b, every declared type, EVERY byte string and fuel, the emitted decoder never panics (no advance/slice/get out of bounds, no stuck state) and Ok results have the declared shape (preservation by induction on fuel over the emitted fragment; wire_size of decoded values defined and a multiple of 4); every reader total; cursor stays inside; termination PARTIAL (K3 on hostile inputs); native stack = finding F9 observed by the deep-chain probe",
-         "no-panic is a theorem for all inputs over the model tied by K2/K3; sup4_b measured on every corpus specification", "DESIGN.md 0 and 7 C04"),
+ "C04": ("Coq: C04_no_panic (sup4_b => never Panic on any byte string, any fuel; Ok has the declared shape), C04_terminates / C04_terminates_decidable (term_b => with fuel (remaining/4)*(K+1)+K+1 never Fuel: every call cycle reads a word, every loop iteration steps over a word), reader totality, cursor stays inside; K3 on every truncation, boundary / random / huge / wrapping words; deep optional chains (F9)",
+         "no-panic and termination theorems for every input under decidable hypotheses evaluated on the corpus; native stack depth (F9) and allocator failure are outside a Gallina model", "DESIGN.md 7 C04"),
  "C05": ("Coq: C05_no_prefix -- for every specification satisfying sup, every well-typed value, every strict byte-granular prefix of its encoding is rejected with InvalidLength (mutual induction using the C01 round trip for the complete parts); count > max and count > bytes present are InvalidLength, count = max accepted, for all buffers (reader level); C05_refuted_F3; bound carried by the emitted call tied by K2; K3 + exhaustive prefixes / over-max values as search",
          "universal theorems over the model tied by K2/K3; emitted bounds tied by K2 on every bounded declarator form", "DESIGN.md 0 and 7 C05"),
  "C06": ("Coq: invalid boolean / option marker / enum word / non-UTF-8 rejected with the right Error for every word; union arm selection PARTIAL (semantics of emitted patterns tied by K2+K3, searched on every declared label)",
@@ -30,8 +30,8 @@ CLAIMED = {
          "tree-level theorem for all declaration lists; the text-to-tree step (PEG on every layout) is checked per spec by K1/K5, not proved: PARTIAL there", "DESIGN.md 7 C12"),
  "C13": ("Coq: C13_reach -- for ANY item list, name in generic index iff opaque reachable (soundness by invariant, completeness by closedness of the fixpoint), C13_fuel, C13_emitted_*; exhaustive graphs k<=2, sampled k=3, chains of depth >= 12",
          "full theorem for all dependency graphs, orders, cycles; model tied by K1 on Ast::generics()", "DESIGN.md 7 C13"),
- "C14": ("Coq: constructors total on grammar shapes, panic exactly in the F11 classes; rejected text yields Err; K1/K2 outcome classes and panic sites on hostile and mutated texts",
-         "panic sites are explicit outcomes of the model; statement for all conforming trees PARTIAL", "DESIGN.md 7 C14"),
+ "C14": ("Coq: C14_front_total (EVERY declaration list meeting decl_ok: Ast::new is Ok or panics at the enum-value / duplicate-constant sites), C14_emitters_panic_site (every Ast: the emitters' only panic), C14_reject (every text the regenerated grammar rejects => Err), constructor totality; K1/K2 outcome classes and panic sites (file granularity) on hostile and mutated texts",
+         "panic sites are explicit outcomes of the model; trees outside decl_ok and the text-to-tree step by K1 only: PARTIAL there", "DESIGN.md 7 C14"),
  "C15": ("Coq: C15_* -- main.rs as a function of args, file system and generate: usage/exit 1, all-ok output in order/exit 0, first failure prefix/non-zero; binary built from /repo run on argument lists",
          "theorem for every file system and library behaviour; the binary is compared with the model instantiated with the library's own generate", "DESIGN.md 7 C15"),
 }
